@@ -7,7 +7,9 @@ SpecCases  == {[Base EXCEPT !.src = ft, !.kind = k, !.tgt = t] : ft \in FloatTyp
               \cup {[Base EXCEPT !.src = "float64", !.kind = k, !.tgt = t] : k \in {"huge", "nhuge"}, t \in Targets}
 BoolCases  == {[Base EXCEPT !.src = "bool", !.kind = "bool", !.d = b, !.tgt = t] : b \in {0, 1}, t \in Targets}
 StrCases   == {[Base EXCEPT !.src = "string", !.kind = "strint", !.a = Anchors[p[1]], !.d = p[2], !.tgt = t] : p \in AllPts, t \in Targets}
-              \cup {[Base EXCEPT !.src = "string", !.kind = k, !.d = v, !.tgt = t] : k \in {"strfloat", "strbad"}, v \in {0, 1}, t \in Targets}
+              \cup {[Base EXCEPT !.src = "string", !.kind = "strbad", !.d = v, !.tgt = t] : v \in {0, 1}, t \in Targets}
+              \* strfloat: "1.5", "1e3" and eight long decimal strings a hair above / below the midpoint of two adjacent float32 (float64) values
+              \cup {[Base EXCEPT !.src = "string", !.kind = "strfloat", !.d = v, !.tgt = t] : v \in 0..9, t \in Targets}
 UnsCases   == {[Base EXCEPT !.src = s, !.kind = "unsupported", !.tgt = t] : s \in {"struct", "slice", "map", "func", "chan", "complex"}, t \in Targets}
 Groups == << <<"int", IntCases>>, <<"float", FloatCases>>, <<"special", SpecCases \cup BoolCases \cup UnsCases>>, <<"string", StrCases>> >>
 File(g) == IOEnv.VERIF_EMIT_DIR \o "/" \o g \o ".ndjson"
